@@ -266,6 +266,36 @@ let dispatch (req : string list) (impl : string list) : string * string =
     let z = Zenc.zerv { Zenc.f = Array.of_list req; Zenc.i = 1 } in
     if not (schema_validate z.z_schema) then ("INVALID", if impl = [ "INVALID" ] then "OK" else "BAD:schema-validation")
     else ("OK " ^ field_of_str (zerv_ron z), (match impl with "OK" :: _ -> "OK" | "INVALID" :: _ -> "BAD:schema-validation" | _ -> "BAD:ron-roundtrip"))
+  | "GIT" :: fmt :: _ ->
+    (* GIT <fmt> <n> (<id> <k> parents.. <time> <hash>)* <m> (<name> <commit id>)* <branch|~> <dirty> A <argc> argv.. N <now> *)
+    let c = { Zenc.f = Array.of_list req; Zenc.i = 2 } in
+    let n = int_of_string (Zenc.next c) in
+    let commits = List.init n (fun _ ->
+      let id = n_of_dec (Zenc.next c) in
+      let k = int_of_string (Zenc.next c) in
+      let ps = List.init k (fun _ -> n_of_dec (Zenc.next c)) in
+      let t = z_of_dec (Zenc.next c) in
+      let h = str_of_field (Zenc.next c) in
+      { c_id = id; c_parents = ps; c_time = t; c_hash = h }) in
+    let m = int_of_string (Zenc.next c) in
+    let tags = List.init m (fun _ -> let nm = str_of_field (Zenc.next c) in let id = n_of_dec (Zenc.next c) in (nm, id)) in
+    let branch = opt_str_of_field (Zenc.next c) in
+    let dirty = Zenc.next c = "1" in
+    let r = { g_commits = commits; g_tags = tags; g_branch = branch; g_dirty = dirty } in
+    if Zenc.next c <> "A" then failwith "expected A";
+    let argc = int_of_string (Zenc.next c) in
+    let argv = List.init argc (fun _ -> let b = Wire.bytes_of_hexfield (Zenc.next c) in String.init (List.length b) (fun i -> Char.chr (List.nth b i))) in
+    let now = if c.Zenc.i + 1 < Array.length c.Zenc.f && c.Zenc.f.(c.Zenc.i) = "N" then n_of_dec c.Zenc.f.(c.Zenc.i + 1) else N0 in
+    let fmt_of = function "semver" -> FSemver | "pep440" -> FPep440 | "auto" -> FAuto | o -> failwith ("fmt " ^ o) in
+    let a = Args.parse argv None None in
+    let reply =
+      if not (topo_ok commits) then "NOT-TOPO"
+      else if not (validate_args a) then "ERR"
+      else match git_vars r (fmt_of fmt) with
+        | None -> "ERR"
+        | Some vs -> (match to_zerv a vs None now with OOk z -> "OK " ^ Zenc.enc_zerv z | OErr -> "ERR" | OPanic -> "PANIC")
+    in
+    (reply, (match impl with "PANIC" :: _ -> "BAD:panic" | _ -> "NA"))
   | "TPL" :: _ :: _ ->
     let c = { Zenc.f = Array.of_list req; Zenc.i = 2 } in
     let z = Zenc.zerv c in
